@@ -27,6 +27,24 @@ def check(prop, tier, cap, only=None, procs=None, list_only=False, t0=None):
             print(o)
         return 0
     results = common.run_pool("harness.p_expr", obs, tier, cap, procs=procs)
+    if prop == "C06":
+        # second leg: solver-generated colliding values and pools, pairwise identity against a deep structural comparison
+        from . import p_c06b
+
+        cobs = p_c06b.obligations(tier)
+        if only:
+            cobs = [o for o in cobs if fnmatch.fnmatchcase(o[0], only)]
+        results += common.run_pool("harness.p_c06b", cobs, tier, cap, procs=procs)
+    if prop == "C10":
+        # a solver's is_true / is_false over query histories (memoised answers): the history harness on the oracle backend
+        from . import p_solvers
+
+        hobs = p_solvers.obligations("C10", tier)
+        for _, p in hobs:
+            p["prop"] = "C10"
+        if only:
+            hobs = [o for o in hobs if fnmatch.fnmatchcase(o[0], only)]
+        results += common.run_pool("harness.p_solvers", hobs, tier, cap, procs=procs)
     if prop == "C05":
         # metadata under substitution and rewriting: the rewriting utilities of C08 run again, checked for the metadata of their results
         from . import p_c08
